@@ -5,6 +5,10 @@ HERE = os.path.dirname(os.path.dirname(os.path.abspath(__file__)))
 
 # id -> (technique, level text, level note, design ref)
 CHECKS = {
+ "C10": ("exhaustive header sweep + mutation/grammar-based totality fuzzing under catch_unwind with an independent header model (TFtoPL 20-21) and the composition oracle deserialize(pl_to_tfm(text))",
+         "Each of the twelve 16-bit header words takes all 2^16 values against 300 (quick) / 663 (thorough) base files (short files, truncated corpus fonts, a full font); every truncation of every corpus font; random byte mutations; size-consistent random files reaching char_info/lig_kern/exten validation; token-level mutations of every corpus property list and of generated ones (subtree delete/duplicate/swap, parenthesis add/drop, out-of-range numbers, labels for undeclared or too-small characters, huge NEXTLARGER cycles, >255 steps, deep nesting). tfm_to_pl returns exactly the documented error/acceptance the header model predicts; pl_to_tfm returns; its output is accepted by File::deserialize with 4*lf == len and converts back; a second validate_and_fix pass repeats no repair warning; any panic is a violation.",
+         "Trusted: the header model (calibrated on the crate's 17 deserialize goldens), catch_unwind with overflow checks on, proptest. Where TFtoPL and the crate's docs disagree on which documented error applies, every documented non-panicking outcome is accepted.",
+         "DESIGN.md §4 C10"),
  "C04": ("PBT against an exhaustive dynamic program over all legal break sequences (reference optimum + validity predicate), calibrated on the repository's TeX-verified goldens and traces",
          "Random lists over a synthetic font (words, glue incl. infinite, penalties from -20000 to 20000, explicit kerns, discretionaries with pre/post/replace parts, discardable runs; 3-40+ breakpoints) x 1-3 line widths x tolerances x every demerit/penalty parameter x skips x emergency stretch x looseness -2..2 x force_solution. break_line_single_attempt returns Some iff the unpruned DP over (break x line count x fitness class) finds a feasible sequence (with TeX 873-875 for looseness); returned breaks are legal, every line's badness within tolerance as recomputed by the model, and total demerits equal the DP optimum for the selected line count; break positions are never compared. Goldens: 28 configurations pass by pass against the recorded TeX logs.",
          "Trusted: models/kp_eval.rs (TeX 813-875 semantics without active list/deactivation/class pruning), proptest. Non-monotone instances, totals reaching awful_bad and exact looseness ties are outside the property: skipped and counted.",
